@@ -112,11 +112,111 @@ def schedule_part(ctx):
             nr = nr // ctx.nshards + (1 if ctx.shard < nr % ctx.nshards else 0)
             S.explore_random(make, tg, nr, ctx.rng, on_run)
             ctx.count('random_schedules', nr)
+    generated_thread_programs(ctx, tg)
     ctx.sample({'thread_programs': [(n, describe(p)['body'], [fr.faults_json(f) for f in fs]) for n, p, fs in thread_programs()][:2]})
+
+
+def gen_threaded(seed):
+    """A generated program that has a worker-thread step, plus one fault placed in a worker."""
+    from vlib.programs import gen_program
+    for k in range(50):
+        rng = random.Random(seed * 1000 + k)
+        p = gen_program(rng, threads=True, max_steps=8, explicit_raise=0, raise_rate=0.05, record_data=False, try_steps=False, nested=False)
+        if any(s['op'] == 'threads' for s in p['body']):
+            break
+    else:
+        return None, None
+    p['gen_seed'] = seed * 1000 + k
+    decls = {d['name']: d for d in p['inputs'] + p['outputs']}
+    spots = []
+    for s in p['body']:
+        if s['op'] == 'threads':
+            for ti, b in enumerate(s['bodies']):
+                for si, st in enumerate(b):
+                    if st['op'] in ('in', 'out'):
+                        spots.append((('w%d' % ti, si), decls[st['decl']]))
+            break
+    faults = {}
+    rng = random.Random(seed)
+    for pos, d in rng.sample(spots, min(len(spots), rng.choice([1, 1, 2]))):
+        # (no injected body failure here: it is sticky per call identity, which would couple the threads' behaviour to the schedule)
+        kinds = ['body_discard', 'body_force', 'body_discard']
+        if d['nparams'] > 0 and not d['kind'].startswith('property'):
+            kinds.append('badkey')
+        if d.get('handler'):
+            kinds += ['handler_raises', 'handler_raises']
+        faults[pos] = rng.choice(kinds)
+    return p, faults
+
+
+def generated_thread_programs(ctx, tg):
+    """Random and PCT schedules over generated worker-thread programs with a fault in a worker (no DFS)."""
+    from checks.C04 import compare_with_twin
+    n = ctx.budget(12, 1200)
+    per = 6 if ctx.quick else 40
+    base = ctx.seed * 100000 + ctx.shard * 5000
+    for i in range(n):
+        prog, faults = gen_threaded(base + i)
+        if prog is None:
+            continue
+        twin = Built(prog, None, World(prog['seed_world'], raise_rate=0.05), faults=faults)
+        twin_outcome = twin.run('live')
+        holder = {}
+
+        def make(sched, prog=prog, faults=faults, holder=holder):
+            from playback.tape_recorder import TapeRecorder
+            from playback.tape_cassettes.in_memory.in_memory_tape_cassette import InMemoryTapeCassette
+            spy = SpyCassette(InMemoryTapeCassette())
+            rec = TapeRecorder(spy)
+            rec.enable_recording()
+            b = Built(prog, rec, World(prog['seed_world'], raise_rate=0.05), faults=faults,
+                      thread_factory=lambda target, args, name: sched.Thread(target=target, args=args, name=name))
+            holder.update(built=b, spy=spy)
+            return lambda: b.run('live')
+
+        def on_run(rec, desc, prog=prog, faults=faults, holder=holder, twin=twin, twin_outcome=twin_outcome):
+            w = {'generated': prog['gen_seed'], 'program': describe(prog), 'faults': fr.faults_json(faults), 'schedule': desc}
+            ctx.case(rec.trace, nontrivial=len(rec.points) > 0)
+            ctx.count('schedules_executed')
+            ctx.count('generated_thread_program_schedules')
+            if rec.aborted:
+                if 'deadlock' in rec.aborted:
+                    ctx.violation('operation deadlocked under a schedule: ' + rec.aborted[:100], w)
+                return
+            if rec.error is not None:
+                ctx.violation('harness-level error %s' % type(rec.error).__name__, dict(w, error=repr(rec.error)[:200]))
+                return
+            r = _Res()
+            r.live, r.twin, r.outcome, r.twin_outcome = holder['built'], twin, rec.result, twin_outcome
+            ctx.count('calls_compared', compare_with_twin(ctx, r, w))
+        S.explore_random(make, tg, per, ctx.rng, on_run)
+        ctx.count('generated_thread_programs')
 
 
 def replay(ctx, w):
     from checks.C04 import compare_with_twin
+    if 'generated' in w:
+        seed = w['generated'] // 1000
+        prog, faults = gen_threaded(seed)
+        faults = {tuple(k): v for k, v in w['faults']}
+        twin = Built(prog, None, World(prog['seed_world'], raise_rate=0.05), faults=faults)
+        twin_outcome = twin.run('live')
+        holder = {}
+
+        def make(sched):
+            from playback.tape_recorder import TapeRecorder
+            from playback.tape_cassettes.in_memory.in_memory_tape_cassette import InMemoryTapeCassette
+            rec = TapeRecorder(SpyCassette(InMemoryTapeCassette()))
+            rec.enable_recording()
+            b = Built(prog, rec, World(prog['seed_world'], raise_rate=0.05), faults=faults,
+                      thread_factory=lambda target, args, name: sched.Thread(target=target, args=args, name=name))
+            holder.update(built=b)
+            return lambda: b.run('live')
+        rec = S.run_once(make, S.strategy_from(w['schedule']), targets())
+        r = _Res()
+        r.live, r.twin, r.outcome, r.twin_outcome = holder['built'], twin, rec.result, twin_outcome
+        compare_with_twin(ctx, r, w)
+        return
     for name, prog, fault_sets in thread_programs():
         if name != w['program']:
             continue
